@@ -1,6 +1,6 @@
 #!/bin/sh
 # usage: tools/confirm_seed.sh <Cnn> <seed-name>: re-confirm a seeded change in its scratch worktree
-id="$1"; name="$2"; wt=/tmp/wt/$id
+id="$1"; name="$2"; wt=${WT:-/tmp/wt}/$id
 export GOFLAGS=-mod=mod GOPROXY=off
 cd $wt || exit 2
 demo=$(ls zz_demo_*_test.go | head -1); tname=$(grep -o 'func TestDemo[A-Za-z0-9_]*' $demo | head -1 | sed 's/func //')
